@@ -5,6 +5,7 @@ Exit codes: 0 = property held on everything explored; 1 = violation(s), one line
 """
 import collections
 import contextlib
+import copy
 import hashlib
 import importlib
 import io
@@ -138,6 +139,7 @@ class Ctx:
         self.seed = derive_seed(base_seed, mod.ID, task, shard)
         self.known = known            # keys listed as known findings
         self.seen = set()             # keys already reported in this shard
+        self._first = []              # the first cases of this shard that passed (re-run at its end: after_history)
         self.evals = 0
         self.nt = set()
         self.nt_extra = 0             # counted by construction (bulk), distinct by enumeration
@@ -201,6 +203,7 @@ class Ctx:
 
     # ---- direct evaluation (enumerations, corpus, fault catalogues)
     def run(self, case):
+        t_ = time.time()
         try:
             info = guarded(self.mod.check_case, case)
         except Violation as v:
@@ -208,7 +211,72 @@ class Ctx:
             self.violation(v, case)
             return None
         self.account(case, info)
+        if time.time() - t_ < 0.25:
+            self._remember(self.mod.check_case, case)
         return info
+
+    def _remember(self, fn, case):
+        if len(self._first) < 24:
+            try:
+                if len(self._first) < 24 and len(json.dumps(case, default=_json_default)) < 200000:
+                    self._first.append((fn, copy.deepcopy(case)))
+            except Exception:
+                pass
+
+    def after_history(self):
+        """end of a task shard: (1) a churn of thousands of distinct ordinary operations (libx.churn), then the task's FIRST cases once
+        more - they passed at the start, they must pass now (bounded caches that evict wrongly, counters that wrap, id() reuse);
+        (2) for modules that declare their cases free of process-wide settings (THREADSAFE), the same cases from four threads
+        at once with a tiny switch interval - separate objects, shared library: any module-level scratch state shows."""
+        if not self._first or os.environ.get('VERIF_NO_HISTORY'):
+            return
+        from . import libx
+        if self.shard < 3:
+            libx.churn(1.0 if self.shard == 0 else 0.5)
+            for fn, case in self._first:
+                try:
+                    guarded(fn, copy.deepcopy(case))
+                    self.evals += 1
+                except Violation as v:
+                    self.evals += 1
+                    self.violation(Violation('after-history/' + v.key, 'a case that passed at the start of the task fails when repeated after the '
+                                             'rest of the task and a churn of distinct objects: ' + v.message), case)
+            self.classes['after-history-rerun'] += len(self._first)
+        if getattr(self.mod, 'THREADSAFE', False) and self.shard < 2 and len(self._first) >= 2:
+            import threading
+            errs = []
+            cases = self._first[:6]
+            deadline = time.time() + (1.5 if self.quick else 6.0)
+
+            def work(k):
+                for r in range(6):
+                    for j in range(len(cases)):
+                        if time.time() > deadline:
+                            return
+                        fn, case = cases[(j + k) % len(cases)]
+                        try:
+                            fn(copy.deepcopy(case))
+                        except Violation as v:
+                            errs.append((v, case))
+                            return
+                        except Exception as e:
+                            errs.append((unexpected('threads', e), case))
+                            return
+            old = sys.getswitchinterval()
+            sys.setswitchinterval(1e-6)
+            try:
+                ths = [threading.Thread(target=work, args=(k,)) for k in range(4)]
+                for t_ in ths:
+                    t_.start()
+                for t_ in ths:
+                    t_.join()
+            finally:
+                sys.setswitchinterval(old)
+            self.evals += 4 * 6 * len(cases)
+            self.classes['threads-rerun'] += 4 * 6 * len(cases)
+            for v, case in errs[:3]:
+                self.violation(Violation('threads/' + v.key, 'a case that passes on its own fails when four threads run the task\'s first cases '
+                                         'concurrently (separate objects): ' + v.message), case)
 
     # ---- Hypothesis-driven evaluation
     def hyp(self, strategy, max_examples, fn=None, shrink_s=None):
@@ -221,6 +289,7 @@ class Ctx:
             state = {'first_fail': None, 'failing': {}, 'last': None}
 
             def body(case):
+                t_ = time.time()
                 try:
                     info = guarded(fn, case)
                 except Violation as v:
@@ -241,6 +310,8 @@ class Ctx:
                     state['last'] = (v, case)
                     raise
                 self.account(case, info)
+                if time.time() - t_ < 0.25:
+                    self._remember(fn, case)
 
             test = hypothesis.seed(derive_seed(self.seed, 'round', rnd))(
                 settings(max_examples=max_examples, database=None, deadline=None, derandomize=False,
@@ -334,6 +405,7 @@ def _worker(args):
         ctx = Ctx(mod, task, tier, seed, shard, nshards, known)
         cov = _linecov_start() if os.environ.get('VERIF_LINECOV') else None
         dict(mod.TASKS)[task][0](ctx)
+        ctx.after_history()
         if cov is not None:
             _linecov_dump(cov, '%s.%s.%d' % (modname, task, shard))
         r = ctx.result()
